@@ -535,7 +535,7 @@ public:
 
     Matrix eigenvectors()
     {
-        return m_evectors;
+        return Matrix(X);
     }
 
     Matrix residuals()
